@@ -774,6 +774,7 @@ package proxy
 //@ contract (*shardDelegate).MergeRemoteState
 //@   props C09
 //@   requires sd.manager != nil ==> sd.manager.remoteNodeStates != nil
+//@   ensures @merged: err == nil && sd.manager != nil ==> state.NodeName in sd.manager.remoteNodeStates && sd.manager.remoteNodeStates[state.NodeName] == state
 
 // ---------------------------------------------------------------------------------------------
 // C06: pass-through relay (default and LCM modes).
